@@ -359,6 +359,12 @@ func isEntryIdentical(b, a Entry) bool {
 			slog.Any("after", after))
 		return false
 	}
+	// Labels set on the group are labels of every rule in it.
+	bl, al := b.Labels(), a.Labels()
+	if !bl.IsIdentical(&al) {
+		slog.Debug("Labels set on the rule group were modified")
+		return false
+	}
 	return true
 }
 
